@@ -190,6 +190,92 @@ def gen_attr_string(rng):
     return rng.choice(["", " "]) + rng.choice([" ", "  ", "\n"]).join(parts) + rng.choice(["", " ", "/"])
 
 
+# ---------------------------------------------------------------- HTML elements whose end tags are left out
+def gen_implied(rng, cid):
+    """an HTML table / list / definition list in which the optional end tags (td th tr li dt dd) are omitted at random;
+    returns (text, skeleton) where skeleton = [tag, child, ...] and a child is a skeleton or a text id"""
+    def leaf():
+        cid[0] += 1
+        return "c%d" % cid[0]
+
+    def end(tag, always=False):
+        return "</%s>" % tag if always or rng.random() < 0.5 else ""
+
+    kind = rng.choice(["table", "table", "ul", "ol", "dl"])
+    if kind == "table":
+        text, sk = "<table>", ["table"]
+        for _ in range(rng.randint(1, 3)):
+            row = ["tr"]
+            text += "<tr>"
+            for _ in range(rng.randint(1, 3)):
+                ct = rng.choice(["td", "td", "th"])
+                l = leaf()
+                inner = [l]
+                body = l
+                if rng.random() < 0.2:
+                    l2 = leaf()
+                    body += "<b>%s</b>" % l2
+                    inner.append(["b", l2])
+                text += "<%s>%s%s" % (ct, body, end(ct))
+                row.append([ct] + inner)
+            text += end("tr")
+            sk.append(row)
+        return text + "</table>", sk
+    if kind in ("ul", "ol"):
+        def lst(depth):
+            text, sk = "<%s>" % kind, [kind]
+            for _ in range(rng.randint(1, 3)):
+                l = leaf()
+                item = ["li", l]
+                text += "<li>" + l
+                if depth < 1 and rng.random() < 0.25:
+                    t2, s2 = lst(depth + 1)
+                    text += t2
+                    item.append(s2)
+                text += end("li")
+                sk.append(item)
+            return text + "</%s>" % kind, sk
+        return lst(0)
+    text, sk = "<dl>", ["dl"]
+    for _ in range(rng.randint(1, 4)):
+        tg = rng.choice(["dt", "dd"])
+        l = leaf()
+        text += "<%s>%s%s" % (tg, l, end(tg))
+        sk.append([tg, l])
+    return text + "</dl>", sk
+
+
+def html_skeleton(node):
+    """[tag, children...] of the HTML elements of a parse tree, texts reduced to the ids they hold"""
+    import re as _re
+    out = []
+    for c in node.get("c", []):
+        if isinstance(c, str):
+            out += _re.findall(r"c\d+", c)
+        elif c.get("k") == "HTML":
+            out.append([c.get("s")] + html_skeleton(c))
+        else:
+            out += html_skeleton(c)
+    return out
+
+
+def check_implied_end_tags(run, rng, quick):
+    cid = [0]
+    cases = [gen_implied(rng, cid) for _ in range(400 if quick else 8000)]
+    res = lib.run_impl("parse_many", [{"texts": [t for t, _ in cases[i:i + 100]]} for i in range(0, len(cases), 100)], shards=lib.NCPU)
+    outs = [o for r in res for o in (r.get("outs") or [{"raised": r.get("outcome", "?")}] * 100)]
+    for (t, sk), o in zip(cases, outs):
+        run.count(["implied-end", t], t.count("<") >= 5, "html-implied-end-tags")
+        if "raised" in o:
+            run.property_failure("c03:parse-raised:%s" % o["raised"], "parse raised on %r" % t, t)
+            continue
+        got = html_skeleton(o["tree"])
+        if got != [sk]:
+            run.property_failure("c03:html:implied-end-tags:%s" % sk[0],
+                                 "elements with omitted optional end tags: %r parsed to %s, written structure %s"
+                                 % (t, json.dumps(got)[:400], json.dumps([sk])[:400]), t)
+
+
 def run(run):
     run.rule = ("(a) tables r x c (1-4 each) in one-cell-per-line and ||/!! styles, optional caption, URL-safe attribute maps "
                 "(0-3 attributes, three quoting styles) on table, rows and cells, 12 cell contents; (b) every paired tag of the "
@@ -198,7 +284,8 @@ def run(run):
                 "parse_attrs vs the Coq scanner model; (e) written tables of the grammar of c03_tables_parse_to_written_grid (rows, "
                 "cells per line or ||/!! separated, caption, attributes everywhere, tables nested two deep) and soups of 1-16 table "
                 "tokens, the real table skeleton vs Model.Tables.parse; (f) template calls, argument references and links with 1-6 "
-                "plain arguments (empty ones included) vs Model.VbarSplit; non-trivial: (a) >= 2 cells, (b)-(d) at least one "
+                "plain arguments (empty ones included) vs Model.VbarSplit; (g) HTML tables, lists and definition lists whose optional "
+                "end tags (td th tr li dt dd) are omitted at random vs the written element structure; non-trivial: (a) >= 2 cells, (b)-(d) at least one "
                 "attribute/argument, (e) >= 4 tokens, (f) >= 2 bars; distinct by JSON hash")
     run.trusted = [
         "Coq 8.16.1 kernel; vm_compute evaluates Model.Attrs.parse_attrs on the attribute strings",
@@ -345,6 +432,7 @@ def run(run):
                 (len(ns[0]["a"]) == (2 if exp else 1))
             if not ok:
                 run.property_failure("c03:ext", "external link parsed as %s" % json.dumps(tree)[:300], t)
+    check_implied_end_tags(run, rng, quick)
     # ---- (d) parse_attrs vs model
     strings = [gen_attr_string(rng) for _ in range(1500 if quick else 20000)]
     strings += [render_attrs(gen_attrs(rng, 4), rng) for _ in range(500 if quick else 5000)]
